@@ -255,9 +255,10 @@ func genPredefConfig(g *Gen, cids []string) (yaml string, opts []string, merged 
 			merged = map[string]map[uint16]string{}
 		}
 	}
-	nopt := int(g.Range(0, 3))
+	nopt := int(g.Range(0, 5))
+	starShort := map[uint16]bool{}
 	for i := 0; i < nopt; i++ {
-		id := uint16(g.Range(1, 5))
+		id := uint16(g.Range(1, 4))
 		nm := names[g.Intn(len(names))]
 		// keep names unique within each client's map (N7): drop an option that would duplicate a name under another id
 		cid := "*"
@@ -273,8 +274,17 @@ func genPredefConfig(g *Gen, cids []string) (yaml string, opts []string, merged 
 		if dup {
 			continue
 		}
+		short := g.Bool(0.5)
+		if was, ok := starShort[id]; ok && g.Bool(0.7) {
+			short = !was // an override in the other spelling
+		}
 		if cid == "*" {
-			opts = append(opts, fmt.Sprintf("%s;%d", nm, id))
+			starShort[id] = short
+		}
+		if cid == "*" && short {
+			opts = append(opts, fmt.Sprintf("%s;%d", nm, id)) // the two spellings of "every client"
+		} else if cid == "*" {
+			opts = append(opts, fmt.Sprintf("*;%s;%d", nm, id))
 		} else {
 			opts = append(opts, fmt.Sprintf("%s;%s;%d", cid, nm, id))
 		}
@@ -350,7 +360,14 @@ func oracleC31(v *View, vd *Verdict) {
 	}
 	vd.Trigger = true
 	exit, exited := cliExit(v)
-	refused := exited && strings.Contains(strings.ToLower(exit), "insecure")
+	// refusing to start = returning an error without having touched the network (whatever the wording)
+	didNet := len(clientTx(v, "cli")) > 0
+	for _, rec := range v.R.Hist {
+		if rec.Ch == "listener" && rec.Kind == "listen" {
+			didNet = true
+		}
+	}
+	refused := exited && exit != "nil" && exit != "" && !didNet
 	desc := strings.Join(cp.Args, " ")
 	for k, val := range cp.Env {
 		desc += " " + k + "=" + val
@@ -358,7 +375,9 @@ func oracleC31(v *View, vd *Verdict) {
 	if cp.Refuse && !refused {
 		vd.Add("C31", "C31/"+cp.Tool+"/not-refused", "%s started with credentials over plain UDP without --insecure: %s (exit %v %q)", cp.Tool, desc, exited, exit)
 	}
-	if !cp.Refuse && refused {
+	// (an allowed combination may still stop early for another reason, e.g. --dtls without a
+	// certificate: only an error that speaks of --insecure counts as a refusal there)
+	if !cp.Refuse && refused && strings.Contains(strings.ToLower(exit), "insecure") {
 		vd.Add("C31", "C31/"+cp.Tool+"/refused-although-allowed", "%s refused to start although the combination is allowed: %s (%q)", cp.Tool, desc, exit)
 	}
 	// nothing may reach the wire when the tool must refuse
